@@ -648,6 +648,14 @@ class Interp:
                 return self._through(kind, a[0])
             if n in FROM_RESIDUAL and kind in ("ok", "some"):
                 return NEVER
+            if n in FROM_RESIDUAL and kind == "err" and len(a) == 1:
+                # `x?` on the error path: the residual is Err(e) (identity From on the error type)
+                inner = a[0]
+                if inner[0] == "err":
+                    return self._through("err", inner[1])
+                if inner[0] == "agg" and inner[2] in ("Err", "Break"):
+                    return self._payload("err", inner)
+                return self._payload("err", ("agg", "core::result::Result", "Err", [inner], ["0"])) if inner[0] != "call" else ("err", inner)
         if b[0] == "phi":
             ms = [self._through(kind, x) for x in b[1]]
             ms = [m for m in ms if m != NEVER]
@@ -705,8 +713,10 @@ def map_children(e, f, payload=None):
     return e
 
 
-def _inlinable(prog, c):
+def _inlinable(prog, c, keep=()):
     if c is None or not c.local or c.kind not in ("Item",):
+        return None
+    if c.path in keep:
         return None
     b = prog.bodies.get(c.path)
     if b is None or b.kind == "Closure" or b.derived:
@@ -734,7 +744,7 @@ def _inline(self, e, memo=None, depth=0, stack=()):
     out = map_children(e, f, self._through)
     if out[0] == "call" and depth < 6:
         c = out[2]
-        b = _inlinable(self.prog, c)
+        b = _inlinable(self.prog, c, getattr(self, "keep", ()))
         if b is not None and c.path not in stack and len(out[3]) == b.arg_count:
             ret = self.ret_expr(c.path)
             if ret is not None:
